@@ -28,7 +28,7 @@ ASSUMPTIONS = ["float64 CPU, scf_eps 1e-11, Pulay", "fragments: neutral closed-s
                "(1 + 10 A / R) for dipole-quadrupole, quadrupoles up to 3 e A^2, noise floors 2e-11 eV / 2e-9 eV/A",
                "generic orientations only (no pair vector within 5 degrees of a Cartesian axis)"]
 REQUIRED_MONITORS = ["parser_calls_default_cutoff", "parser_calls_finite_cutoff", "separations_judged",
-                     "cut_dimers_judged", "parser_batches_judged", "pm6_d_fragment_cases"]
+                     "cut_dimers_judged", "parser_batches_judged", "pm6_d_fragment_cases", "direction_sets_compared"]
 # thorough tier: cases not started after this many seconds are skipped and reported (env override for smoke tests)
 BUDGET_S = {"thorough": float(__import__("os").environ.get("VERIF_C19_BUDGET", "1500"))}
 CASE_TIMEOUT = 900.0
@@ -79,6 +79,17 @@ def gen_cases(tier, seed):
             "seed": int(gp.integers(0, 2**31)), "Rs": [20, 50, 100, 200, 500] if tier == "quick" else R_ALL,
             "cutoffs": [15.0]} for i in range(npm6)]
     cases = pm6 + cases
+    # direction independence: the same rigid supersystem with its separation vector put along +-x, +-y, +-z
+    gd = gen.rng("C19", tier, "direction")
+    dnames = ["CH2O", "H2O", "NH3", "HCN", "CH3OH", "HF", "CO2", "C2H4", "CH3F", "HNO"]
+    ndir = 6 if tier == "quick" else 40
+    dirs = []
+    for i in range(ndir):
+        method = ["AM1", "PM3", "MNDO", "PM6_SP"][i % 4]
+        av = [x for x in dnames if gen.available(x, method)]
+        pick = [av[int(j)] for j in gd.permutation(len(av))[:2]]
+        dirs.append({"kind": "dir", "method": method, "frags": pick, "R": float([20.0, 15.0, 30.0, 40.0][i % 4]), "seed": int(gd.integers(0, 2**31))})
+    cases = dirs + cases
     frag_cases, cases = cases, []
     for i in range(nparser):
         method = ["AM1", "PM3", "MNDO", "PM6_SP"][i % 4]
@@ -482,9 +493,82 @@ def _run_parser(case):
                     "cutoff": c}}
 
 
+TOL_DIR_E = 2e-8         # eV: spread of E_int over the six lab directions (main shows <= 1e-12)
+TOL_DIR_F = 1e-7         # eV/A: spread of the net force on a fragment (magnitude) over the six directions
+XPOLE_CONE = 4.6e-4      # rad: open finding pair-on-x-pole (heavy-atom pair this close to +-x): such a direction set is skipped
+
+
+def _run_dir(case):
+    """E_int = E(AB) - E(A) - E(B) and |net force on each fragment| of one rigid supersystem whose separation vector is put
+    along +-x, +-y, +-z (random spin about the axis each time): both are scalars of the rigid body, so they must not depend
+    on the lab direction."""
+    from vlib import run
+
+    method = case["method"]
+    g = np.random.default_rng(case["seed"])
+    frs = [_frag(n, g) for n in case["frags"]]
+    d0 = g.normal(size=3)
+    d0 /= np.linalg.norm(d0)
+    base = [(frs[0][0], frs[0][1]), (frs[1][0], frs[1][1] + case["R"] * d0)]
+    sett = run.settings(method, eps=1e-10, converger=(2,))
+    mon, viol, margins, cells = {}, [], {}, ["dir/%s/R=%g" % (method, case["R"])]
+    Es, Fs, used = [], [], []
+    for ax, t in gen.AXES.items():
+        Rm = gen.rot_a_to_b(d0, np.array(t, float))
+        ang = g.uniform(0, 2 * np.pi)
+        tt = np.array(t, float)
+        K = np.array([[0, -tt[2], tt[1]], [tt[2], 0, -tt[0]], [-tt[1], tt[0], 0]])
+        Rm = (np.eye(3) + np.sin(ang) * K + (1 - np.cos(ang)) * K @ K) @ Rm
+        cur = [(Z, X @ Rm.T) for Z, X in base]
+        Z, X, fid, lid = _merge(cur)
+        # stay outside the open x-pole finding: no heavy-atom pair within its cone of +-x
+        near = False
+        for i in range(len(Z)):
+            for j in range(i + 1, len(Z)):
+                if Z[i] > 1 and Z[j] > 1:
+                    v = X[j] - X[i]
+                    c = abs(v[0]) / np.linalg.norm(v)
+                    if np.arccos(min(1.0, c)) < 2 * XPOLE_CONE:
+                        near = True
+        if near:
+            mon["direction_skipped_pair_in_x_pole_cone"] = mon.get("direction_skipped_pair_in_x_pole_cone", 0) + 1
+            continue
+        ab = run.single_point(Z, X, sett)
+        iso = [run.single_point(zz, xx, sett) for zz, xx in cur]
+        if bool(ab["notconverged"][0]) or any(bool(o["notconverged"][0]) for o in iso):
+            mon["direction_not_converged"] = mon.get("direction_not_converged", 0) + 1
+            continue
+        Es.append(float(ab["Etot"][0]) - sum(float(o["Etot"][0]) for o in iso))
+        Fs.append([float(np.linalg.norm(ab["force"][0][fid == f].sum(axis=0))) for f in range(2)])
+        used.append(ax)
+    if len(Es) < 4 or not any(a in used for a in ("+x", "-x")):
+        return {"ineligible": "fewer than 4 usable directions or no x direction", "monitors": mon}
+    mon["direction_sets_compared"] = 1
+    Es, Fs = np.array(Es), np.array(Fs)
+    # a solver-path flip to another SCF stationary point is C04's matter: E_int of that size is not a direction effect
+    spreadE = float(np.max(Es) - np.min(Es)) if np.all(np.isfinite(Es)) else float("nan")
+    spreadF = float(np.max(Fs.max(axis=0) - Fs.min(axis=0))) if np.all(np.isfinite(Fs)) else float("nan")
+    margins["dir_Eint_spread"] = spreadE / TOL_DIR_E if spreadE == spreadE else float("inf")
+    margins["dir_net_force_spread"] = spreadF / TOL_DIR_F if spreadF == spreadF else float("inf")
+    bad = {}
+    if not (spreadE <= TOL_DIR_E):
+        bad["E_int"] = dict(zip(used, Es.tolist()))
+    if not (spreadF <= TOL_DIR_F):
+        bad["net_fragment_force"] = dict(zip(used, Fs.tolist()))
+    if bad and np.all(np.isfinite(Es)) and spreadE > 1e-3:
+        return {"ineligible": "E_int differs by > 1e-3 eV between directions: another SCF stationary point (C04 domain)", "monitors": mon}
+    if bad:
+        viol.append({"clause": "interaction-depends-on-lab-direction", "mech": None,
+                     "detail": {"spread_E_int": spreadE, "spread_net_force": spreadF, "values": bad, "case": case}})
+    return {"nontrivial": True, "violations": viol, "margins": margins, "monitors": mon, "cells": cells,
+            "obs": {"frags": case["frags"], "R": case["R"], "directions": used, "E_int": Es.tolist(), "spread_E": spreadE, "spread_F": spreadF}}
+
+
 def run_case(case):
     if case.get("kind") == "parser":
         return _run_parser(case)
+    if case.get("kind") == "dir":
+        return _run_dir(case)
     return _run_frag(case)
 
 
